@@ -183,54 +183,51 @@ theorem callback_spec (S) (c : Client) (hi : TInv c) (hf : FromStarts S c) (id :
   unfold Client.callback
   have triv : CbSpec S c (c, []) :=
     ⟨hi, hf, fun h => by simp [calls], rfl, ⟨rfl, rfl, rfl, rfl, rfl⟩, ⟨by simp, by simp, by simp, by simp, by simp⟩⟩
-  by_cases hc : c.closed = true
-  · simp only [hc, if_true]; exact triv
-  · simp only [hc, Bool.false_eq_true, if_false]
-    cases hl : c.lookup id with
-    | none =>
-      simp only
-      by_cases hfb : (c.hasFallback && e != .stopped) = true
-      · simp only [hfb, if_true]
-        simp only [Bool.and_eq_true, bne_iff_ne, ne_eq] at hfb
-        refine ⟨hi, hf, fun h => by simp [calls], rfl, ⟨rfl, rfl, rfl, rfl, rfl⟩, ⟨by simp, by simp, by simp, ?_, by simp⟩⟩
-        intro id' e' hm
-        simp only [List.mem_singleton, COut.fallback.injEq] at hm
-        exact ⟨hfb.1, by rw [hm.2]; exact hfb.2⟩
-      · simp only [hfb, Bool.false_eq_true, if_false]; exact triv
-    | some tx =>
-      simp only
-      obtain ⟨k, hmem, hk⟩ := lookup_mem c id tx hl
-      have htxid : tx.id = id := by have := hi.keyId _ hmem; simp only at this; rw [← this, hk]
-      have hS : (tx.h, tx.id, tx.raw) ∈ S := hf _ hmem
-      have hie := tinv_erase c id hi
-      have hpe := pend_erase c hi id tx hl
-      have hfe := fromStarts_erase S c id hf
-      by_cases hdone : (decide (c.maxAttempts ≤ tx.attempt) || e.isMsg) = true
-      · simp only [hdone, if_true]
-        refine ⟨hie, hfe, ?_, rfl, ⟨rfl, rfl, rfl, rfl, rfl⟩, ⟨?_, by simp, by simp, by simp, by simp⟩⟩
-        · intro h; rw [calls_single_call]; have := hpe h; show _ + pend h (c.erase id) = _; omega
-        · intro h id' e' hm
-          simp only [List.mem_singleton, COut.call.injEq] at hm
-          exact ⟨tx.raw, by rw [hm.1, hm.2.1, ← htxid]; exact hS⟩
-      · simp only [hdone, Bool.false_eq_true, if_false]
-        have hk' : id ∉ ckeys (c.erase id) := by rw [ckeys_erase]; simp
-        have rs := retransmit_spec (c.erase id) hie tx id htxid hk'
-        refine ⟨rs.inv, ?_, ?_, rs.closedSame, rs.cfgSame, ⟨?_, ?_, ?_, ?_, rs.noConnClose⟩⟩
-        · -- entries of the result: old ones, or the re-inserted transaction with the same handler, id and raw
-          intro p hp
-          rcases rs.entries p hp with h1 | ⟨h1, h2, h3⟩
-          · exact hfe p h1
-          · rw [h1, h2, h3, ← htxid]; exact hS
-        · intro h; have := rs.count h; have := hpe h; omega
-        · intro h id' e' hm
-          obtain ⟨h1, h2⟩ := rs.callOwn h id' e' hm
-          exact ⟨tx.raw, by rw [h1, h2, ← htxid]; exact hS⟩
-        · intro raw h hm
-          obtain ⟨h1, h2⟩ := rs.writeOwn raw (some h) hm
-          simp only [Option.some.injEq] at h2
-          exact ⟨tx.id, by rw [h1, h2]; exact hS⟩
-        · intro raw hm
-          have := (rs.writeOwn raw none hm).2; simp at this
-        · intro id' e' hm; exact absurd hm (rs.noFallback id' e')
+  cases hl : c.lookup id with
+  | none =>
+    simp only
+    by_cases hfb : (!c.closed && c.hasFallback && e != .stopped) = true
+    · simp only [hfb, if_true]
+      simp only [Bool.and_eq_true, bne_iff_ne, ne_eq, Bool.not_eq_true'] at hfb
+      refine ⟨hi, hf, fun h => by simp [calls], rfl, ⟨rfl, rfl, rfl, rfl, rfl⟩, ⟨by simp, by simp, by simp, ?_, by simp⟩⟩
+      intro id' e' hm
+      simp only [List.mem_singleton, COut.fallback.injEq] at hm
+      exact ⟨hfb.1.2, by rw [hm.2]; exact hfb.2⟩
+    · simp only [hfb, Bool.false_eq_true, if_false]; exact triv
+  | some tx =>
+    simp only
+    obtain ⟨k, hmem, hk⟩ := lookup_mem c id tx hl
+    have htxid : tx.id = id := by have := hi.keyId _ hmem; simp only at this; rw [← this, hk]
+    have hS : (tx.h, tx.id, tx.raw) ∈ S := hf _ hmem
+    have hie := tinv_erase c id hi
+    have hpe := pend_erase c hi id tx hl
+    have hfe := fromStarts_erase S c id hf
+    by_cases hdone : (c.closed || decide (c.maxAttempts ≤ tx.attempt) || e.isMsg) = true
+    · simp only [hdone, if_true]
+      refine ⟨hie, hfe, ?_, rfl, ⟨rfl, rfl, rfl, rfl, rfl⟩, ⟨?_, by simp, by simp, by simp, by simp⟩⟩
+      · intro h; rw [calls_single_call]; have := hpe h; show _ + pend h (c.erase id) = _; omega
+      · intro h id' e' hm
+        simp only [List.mem_singleton, COut.call.injEq] at hm
+        exact ⟨tx.raw, by rw [hm.1, hm.2.1, ← htxid]; exact hS⟩
+    · simp only [hdone, Bool.false_eq_true, if_false]
+      have hk' : id ∉ ckeys (c.erase id) := by rw [ckeys_erase]; simp
+      have rs := retransmit_spec (c.erase id) hie tx id htxid hk'
+      refine ⟨rs.inv, ?_, ?_, rs.closedSame, rs.cfgSame, ⟨?_, ?_, ?_, ?_, rs.noConnClose⟩⟩
+      · -- entries of the result: old ones, or the re-inserted transaction with the same handler, id and raw
+        intro p hp
+        rcases rs.entries p hp with h1 | ⟨h1, h2, h3⟩
+        · exact hfe p h1
+        · rw [h1, h2, h3, ← htxid]; exact hS
+      · intro h; have := rs.count h; have := hpe h; omega
+      · intro h id' e' hm
+        obtain ⟨h1, h2⟩ := rs.callOwn h id' e' hm
+        exact ⟨tx.raw, by rw [h1, h2, ← htxid]; exact hS⟩
+      · intro raw h hm
+        obtain ⟨h1, h2⟩ := rs.writeOwn raw (some h) hm
+        simp only [Option.some.injEq] at h2
+        exact ⟨tx.id, by rw [h1, h2]; exact hS⟩
+      · intro raw hm
+        have := (rs.writeOwn raw none hm).2; simp at this
+      · intro id' e' hm; exact absurd hm (rs.noFallback id' e')
 
 end Stun.ClientProofs
